@@ -111,8 +111,12 @@ class UserMetadata(Identity, Versioned[int | None]):
 
     def compare_authcid(self, authcid: str) -> bool:
         prepare = self.config.password_prep
-        self_authcid = prepare(self.authcid).encode('utf-8')
-        other_authcid = prepare(authcid).encode('utf-8')
+        try:
+            self_authcid = prepare(self.authcid).encode('utf-8')
+            other_authcid = prepare(authcid).encode('utf-8')
+        except ValueError:
+            # not a string any identity can have, e.g. undecodable bytes
+            return False
         return secrets.compare_digest(self_authcid, other_authcid)
 
     def compare_secret(self, value: str) -> bool:
@@ -120,7 +124,11 @@ class UserMetadata(Identity, Versioned[int | None]):
         password = self.password
         if password is not None:
             hash_context = self.config.hash_context.copy()
-            return hash_context.verify(prepare(value), prepare(password))
+            try:
+                prepared = prepare(value)
+            except ValueError:
+                return False
+            return hash_context.verify(prepared, prepare(password))
         return False
 
     def get_clear_secret(self) -> str | None:
